@@ -23,8 +23,15 @@ def write(path, text):
     with open(path, "w") as fh:
         fh.write(text)
 
-for lib in ("CnfgenModel", "Lemmas", "Props"):
-    write(os.path.join(lean, lib + ".lean"), "".join("import {}\n".format(m) for m in modules(lib)))
+# Only the model has a root (it is one program: the driver).  Lemma and property files are built
+# module by module (`lake build Props.C01.Php …`): files written for different properties are never
+# imported together, so they need no global name discipline.
+write(os.path.join(lean, "CnfgenModel.lean"), "".join("import {}\n".format(m) for m in modules("CnfgenModel")))
+for stale in ("Lemmas.lean", "Props.lean"):
+    if os.path.exists(os.path.join(lean, stale)):
+        os.remove(os.path.join(lean, stale))
+if "--list-props" in __import__("sys").argv:
+    print(" ".join(modules("Props")))
 
 drivers = [m.split(".")[-1] for m in modules("CnfgenModel/Driver") if not m.endswith(".Util")]
 main = "import CnfgenModel\n" + "open Cnfgen Cnfgen.Driver\n\n"
